@@ -152,7 +152,7 @@ Definition subst := list (string * string).
 Definition apply_term (sg : subst) (t : term) : string := match t with TConst c => c | TVar v => match sassoc v sg with Some x => x | None => v end end.
 Definition ground_atom (sg : subst) (a : natom) : gatom := na_pred a ++ "(" ++ join "," (map (apply_term sg) (na_args a)) ++ ")".
 
-Fixpoint add_var (v : string) (l : list string) : list string := if mem_string v l then l else (l ++ [v])%list.
+Definition add_var (v : string) (l : list string) : list string := if mem_string v l then l else (l ++ [v])%list.
 Definition vars_of_atom (a : natom) (acc : list string) : list string :=
   fold_left (fun acc t => match t with TVar v => add_var v acc | TConst _ => acc end) (na_args a) acc.
 Definition vars_of_lit (l : blit) (acc : list string) : list string :=
